@@ -715,10 +715,10 @@ def _iter_unused_names(
         bodies.append(scope.orelse)
     if core.match_template(scope, ast.AST(finalbody=list)):
         bodies.append(scope.finalbody)
-    if isinstance(scope, (ast.For, ast.While)):
+    if isinstance(scope, (ast.For, ast.AsyncFor, ast.While)):
         *_, required_names = tracing.code_dependencies_outputs([scope])
         preserve = preserve | required_names
-    if isinstance(scope, ast.Try):
+    if isinstance(scope, (ast.Try, getattr(ast, "TryStar", ast.Try))):
         # The handlers and the finally clause may run after any statement of the body.
         preserve = preserve | {
             name.id
@@ -753,7 +753,7 @@ def _iter_unused_names(
             # (7) For every (node) at position (i) in the sequence,
             for i, node in enumerate(sequence):
                 remainder = sequence[i + 1 :]
-                if isinstance(node, (ast.For, ast.While)):
+                if isinstance(node, (ast.For, ast.AsyncFor, ast.While)):
                     remainder.extend(sequence[:i])
                 _, node_created, _ = tracing.code_dependencies_outputs([node])
                 subsequent_created, _, subsequent_required = tracing.code_dependencies_outputs(
